@@ -24,6 +24,11 @@ type faultSpec struct {
 	Kind     string
 	Recip    int // p2p: the recipient whose copy is altered; -1: all copies (broadcast)
 	Salt     int
+	// coordinated commit/reveal deviation (Kind "commit:<variant>"): MsgType/Field name the commitment,
+	// Reveal/RevealField the later message that opens it; Arity is the number of committed values.
+	Reveal      string `json:",omitempty"`
+	RevealField string `json:",omitempty"`
+	Arity       int    `json:",omitempty"`
 }
 
 type faultCase struct {
@@ -57,6 +62,7 @@ func coveredField(typ, field string) bool {
 }
 
 type faultRun struct {
+	commitD   []*big.Int // decommitment the deviator will reveal (coordinated strategy)
 	x         *runCtx
 	c         faultCase
 	held      []*sim.Delivery
@@ -117,6 +123,23 @@ func (fr *faultRun) alter(d *sim.Delivery) ([]byte, bool) {
 		return oe.Bytes, true
 	}
 	cv := fr.x.cv
+	if strings.HasPrefix(f.Kind, "commit:") {
+		return fr.alterCommitReveal(d)
+	}
+	var sumOthers *big.Int
+	if f.Kind == "sum-zero" { // a rushing deviator: its value cancels the sum of everybody else's
+		sumOthers = new(big.Int)
+		cnt := 0
+		for _, e := range fr.x.net.Emits {
+			if e.From != f.Deviator && e.Type == d.E.Type {
+				sumOthers.Add(sumOthers, new(big.Int).SetBytes(readField(e.Bytes, f.Field)))
+				cnt++
+			}
+		}
+		if cnt < len(fr.x.net.Nodes)-1 {
+			return nil, false
+		}
+	}
 	out, err := rewriteWire(d.E.Bytes, func(m protoreflect.Message) {
 		cur := getField(m, f.Field)
 		honest := new(big.Int).SetBytes(cur)
@@ -141,6 +164,13 @@ func (fr *faultRun) alter(d *sim.Delivery) ([]byte, bool) {
 			if nv == nil {
 				nv = []byte{}
 			}
+		case "sum-zero":
+			v := new(big.Int).Neg(sumOthers)
+			v.Mod(v, cv.Q)
+			if v.Sign() == 0 {
+				v = big.NewInt(1)
+			}
+			nv = v.Bytes()
 		case "remove":
 			removeField(m, f.Field)
 			return
@@ -190,7 +220,13 @@ func (fr *faultRun) install() {
 	f := fr.c.F
 	fr.cache = map[*sim.Emit][]byte{}
 	match := func(d *sim.Delivery) bool {
-		if d.E.From != f.Deviator || d.E.Type != f.MsgType {
+		if d.E.From != f.Deviator {
+			return false
+		}
+		if f.Reveal != "" && d.E.Type == f.Reveal {
+			return true
+		}
+		if d.E.Type != f.MsgType {
 			return false
 		}
 		return d.E.Bcast || f.Recip < 0 || d.To == f.Recip
@@ -301,7 +337,9 @@ func judgeHonest(x *runCtx, dev int, covered bool, mode string) *runProblem {
 		}
 	case "ecdsa-keygen", "eddsa-keygen":
 		views, ecs := x.outputViews(net.Nodes)
-		views[dev], ecs[dev] = nil, nil
+		if dev >= 0 {
+			views[dev], ecs[dev] = nil, nil
+		}
 		have := 0
 		for _, v := range views {
 			if v != nil {
@@ -433,9 +471,12 @@ func runFault(c faultCase, mode string) ev.Outcome {
 	if x.heldEC != nil && c.F.Deviator < len(x.heldEC) && x.heldEC[c.F.Deviator].PaillierSK != nil {
 		fr.devN = x.heldEC[c.F.Deviator].PaillierSK.N
 	}
+	if c.F.Kind == "wrong-secret" {
+		return runWrongSecret(c)
+	}
 	fr.install()
 	x.net.Run(sim.FIFO{}, 200000)
-	covered := coveredField(c.F.MsgType, c.F.Field.Name) && (c.F.Kind == "+1" || c.F.Kind == "rand" || c.F.Kind == "other" || c.F.Kind == "remove")
+	covered := coveredField(c.F.MsgType, c.F.Field.Name) && (c.F.Kind == "+1" || c.F.Kind == "rand" || c.F.Kind == "other" || c.F.Kind == "remove" || strings.HasPrefix(c.F.Kind, "commit:"))
 	out := ev.Outcome{Label: fmt.Sprintf("%s %s.%s kind=%s dev=%d", c.Run.Proto, shortType(c.F.MsgType), c.F.Field.Name, c.F.Kind, c.F.Deviator)}
 	out.Nontrivial = fr.consumed > 0
 	if fr.applied == 0 || fr.na {
@@ -521,4 +562,170 @@ func enumCells(run protoRun, kinds []string, listKinds []string, salt int, maxPe
 		}
 	}
 	return cells
+}
+
+
+// commitValues builds the values the deviator commits to (coordinated commit/reveal strategy).
+func (fr *faultRun) commitValues() []*big.Int {
+	f := fr.c.F
+	cv := fr.x.cv
+	variant := strings.TrimPrefix(f.Kind, "commit:")
+	gx, gy, _ := cv.refBaseMul(big.NewInt(int64(f.Salt%1000 + 2)))
+	vals := make([]*big.Int, 0, f.Arity+2)
+	for i := 0; i < f.Arity/2; i++ {
+		vals = append(vals, gx, gy)
+	}
+	switch variant {
+	case "offcurve":
+		vals[0], vals[1] = big.NewInt(1), big.NewInt(1)
+	case "offcurve-last":
+		vals[len(vals)-2], vals[len(vals)-1] = add(gx, 1), gy
+	case "identity":
+		if cv.Name == "ed25519" {
+			vals[0], vals[1] = big.NewInt(0), big.NewInt(1)
+		} else {
+			vals[0], vals[1] = big.NewInt(0), big.NewInt(0)
+		}
+	case "small-order":
+		if cv.Name == "ed25519" {
+			tp := refTorsion(1 + f.Salt%7)
+			vals[0], vals[1] = tp[0], tp[1]
+		} else {
+			vals[0], vals[1] = big.NewInt(0), big.NewInt(0)
+		}
+	case "x>=p":
+		vals[0] = new(big.Int).Add(gx, cv.P)
+	case "short":
+		vals = vals[:len(vals)-1]
+	case "long":
+		vals = append(vals, big.NewInt(7))
+	case "len1":
+		vals = vals[:1]
+	case "empty":
+		vals = vals[:0]
+	case "valid-other": // well-formed values the deviator knows no witness for
+	}
+	return vals
+}
+
+func (fr *faultRun) alterCommitReveal(d *sim.Delivery) ([]byte, bool) {
+	f := fr.c.F
+	if b, ok := fr.cache[d.E]; ok {
+		return b, true
+	}
+	if fr.commitD == nil {
+		r := big.NewInt(int64(1000003 + f.Salt))
+		cd := cmtNew(r, fr.commitValues())
+		fr.commitD = cd.D
+		fr.cache[nil] = cd.C.Bytes()
+	}
+	var out []byte
+	var err error
+	if d.E.Type == f.MsgType {
+		out, err = rewriteWire(d.E.Bytes, func(m protoreflect.Message) {
+			setField(m, f.Field, fr.cache[nil])
+		})
+	} else {
+		out, err = rewriteWire(d.E.Bytes, func(m protoreflect.Message) {
+			fd := m.Descriptor().Fields().ByName(protoreflect.Name(f.RevealField))
+			if fd == nil || !fd.IsList() {
+				return
+			}
+			l := m.Mutable(fd).List()
+			l.Truncate(0)
+			for _, v := range fr.commitD {
+				b := v.Bytes()
+				if len(b) == 0 {
+					b = []byte{0}
+				}
+				l.Append(protoreflect.ValueOfBytes(b))
+			}
+		})
+	}
+	if err != nil {
+		return nil, false
+	}
+	fr.cache[d.E] = out
+	return out, true
+}
+
+// commitPairs: commitment message/field -> reveal message/field -> number of committed values
+type commitPair struct {
+	Commit, CField, Reveal, RField string
+	Arity                          func(x *runCtx) int
+}
+
+var commitPairs = []commitPair{
+	{pDS + "SignRound1Message", "commitment", pDS + "SignRound2Message", "de_commitment", func(*runCtx) int { return 2 }},
+	{pDK + "KGRound1Message", "commitment", pDK + "KGRound2Message2", "de_commitment", func(x *runCtx) int { return 2 * (x.t + 1) }},
+	{pDR + "DGRound1Message", "v_commitment", pDR + "DGRound3Message2", "v_decommitment", func(x *runCtx) int { return 2 * (x.p.NewT + 1) }},
+	{pES + "SignRound1Message2", "commitment", pES + "SignRound4Message", "de_commitment", func(*runCtx) int { return 2 }},
+	{pES + "SignRound5Message", "commitment", pES + "SignRound6Message", "de_commitment", func(*runCtx) int { return 4 }},
+	{pES + "SignRound7Message", "commitment", pES + "SignRound8Message", "de_commitment", func(*runCtx) int { return 4 }},
+	{pEK + "KGRound1Message", "commitment", pEK + "KGRound2Message2", "de_commitment", func(x *runCtx) int { return 2 * (x.t + 1) }},
+	{pER + "DGRound1Message", "v_commitment", pER + "DGRound3Message2", "v_decommitment", func(x *runCtx) int { return 2 * (x.p.NewT + 1) }},
+}
+
+var commitVariants = []string{"offcurve", "offcurve-last", "identity", "small-order", "x>=p", "short", "long", "len1", "empty", "valid-other"}
+
+// enumCommitCells lists the coordinated commit/reveal cells of a configuration.
+func enumCommitCells(run protoRun, salt int) []faultCase {
+	x := run.build()
+	x.net.Run(sim.FIFO{}, 200000)
+	var cells []faultCase
+	seen := map[string]bool{}
+	for _, e := range x.net.Emits {
+		for _, cp := range commitPairs {
+			if e.Type != cp.Commit || seen[fmt.Sprintf("%d/%s", e.From, e.Type)] {
+				continue
+			}
+			seen[fmt.Sprintf("%d/%s", e.From, e.Type)] = true
+			for _, v := range commitVariants {
+				cells = append(cells, faultCase{Run: run, F: faultSpec{Deviator: e.From, MsgType: cp.Commit, Field: fieldRef{cp.CField, -1}, Kind: "commit:" + v,
+					Recip: -1, Salt: salt, Reveal: cp.Reveal, RevealField: cp.RField, Arity: cp.Arity(x)}})
+			}
+		}
+	}
+	return cells
+}
+
+
+// runWrongSecret: the deviator takes part with Xi+1 instead of its share.
+func runWrongSecret(c faultCase) ev.Outcome {
+	run := c.Run
+	run.BadXi = []int{c.F.Deviator}
+	x := run.build()
+	// the node built from Members[Deviator] (nodes are in sorted-id order)
+	dev := -1
+	for i := range x.net.Nodes {
+		var held, orig *big.Int
+		if run.edd() && i < len(x.heldED) {
+			held = x.heldED[i].Xi
+			d, _, _, _ := run.Key.resolveED()
+			idx, _ := x.heldED[i].OriginalIndex()
+			orig = d[idx].Xi
+		} else if !run.edd() && i < len(x.heldEC) {
+			held = x.heldEC[i].Xi
+			d, _, _ := run.Key.resolveEC()
+			idx, _ := x.heldEC[i].OriginalIndex()
+			orig = d[idx].Xi
+		}
+		if held != nil && orig != nil && held.Cmp(orig) != 0 {
+			dev = i
+		}
+	}
+	out := ev.Outcome{Label: fmt.Sprintf("%s wrong-secret member=%d", run.Proto, c.F.Deviator), Nontrivial: true}
+	if dev < 0 {
+		out.Label = "not-applied " + out.Label
+		out.Nontrivial = false
+		return out
+	}
+	x.net.Run(sim.FIFO{}, 200000)
+	// covered (exact blame demanded) only for ECDSA signing: Bob's proof with check against the public share point
+	covered := run.Proto == "ecdsa-signing"
+	if p := judgeHonest(x, dev, covered, "C05"); p != nil {
+		out.Err = fmt.Errorf("%s, party %d uses a wrong secret share: %s", run, dev, p.msg)
+		out.Sig = fmt.Sprintf("%s:wrong-secret:%s", p.sig, run.Proto)
+	}
+	return out
 }
